@@ -257,6 +257,29 @@ func init() {
 		} else {
 			c.Fail("C12e/RemoveExpiredSubscription/projects-then-entry", c.P.Pos(remove.Pos()), "the subscription is removed without (first) removing its projects")
 		}
+		// every project of the expiring subscription is visited: a failed deletion does not end the loop
+		if dap := c.Fn(sk + "Keeper.delAllProjectsFromSubscription"); dap != nil {
+			dels := c.CallsByName(dap, false, "invoke:x/subscription/types.ProjectsKeeper.DeleteProject")
+			if len(dels) != 1 {
+				c.Undecided("C12e: expected one DeleteProject call in delAllProjectsFromSubscription, found %d", len(dels))
+			} else if loop := innermostLoop(dap, dels[0].Instr.Block()); loop == nil {
+				c.Fail("C12e/delAllProjectsFromSubscription/visits-every-project", c.P.InstrPos(dels[0].Instr), "projects are not deleted in a loop over the subscription's projects")
+			} else {
+				bad := ""
+				for b := range loop.Blocks {
+					for _, s := range b.Succs {
+						if !loop.Blocks[s] && b != loop.Header {
+							bad = c.P.Pos(b.Instrs[len(b.Instrs)-1].Pos())
+						}
+					}
+				}
+				if bad == "" {
+					c.OK("C12e/delAllProjectsFromSubscription/visits-every-project", c.P.InstrPos(dels[0].Instr), "the only exit of the loop is the end of the project list")
+				} else {
+					c.Fail("C12e/delAllProjectsFromSubscription/visits-every-project", c.P.InstrPos(dels[0].Instr), "the loop over the subscription's projects can end early ("+bad+"): one project that fails to delete leaves all later projects alive after the subscription is gone")
+				}
+			}
+		}
 		c.auditQueryOnly("C12e", sk+"Keeper.EstimatedPoolsRewards", sk+"Keeper.Estimated")
 		c.auditQueryOnly("C12e", sk+"Keeper.EstimatedProviderRewards", sk+"Keeper.Estimated")
 		c.RequireCallers("C12e", sk+"Keeper.advanceMonth", sk+"NewKeeper", sk+"Keeper.EstimatedPoolsRewards", sk+"Keeper.EstimatedProviderRewards")
